@@ -56,6 +56,15 @@ def run(rep, pool, driver, tier):
                 delays[r.randrange(0, max(1, n // per))] = r.choice([1300, 2200])
             tasks.append({'op': 'create_chunks', 'events': es, 'n_cues': n_cues, 'n_outs': n_outs, 'per': per,
                           'n_jobs': nj, 'policy': 'error', 'delays': delays, 'delay_mode': mode})
+    # more chunks than one throttle batch (4*n_jobs) and a job EARLY in the batch that outlives the
+    # 1 s poll on the batch's last job: nothing may be skipped or cut short (seeded change C04_b)
+    for n, per, nj, slow in ([(20, 2, 2, 0), (21, 2, 2, 3), (23, 2, 2, 6)] if quick else
+                             [(20, 2, 2, 0), (21, 2, 2, 3), (23, 2, 2, 6), (27, 3, 2, 1), (30, 2, 3, 2), (19, 2, 2, 7), (36, 2, 4, 5)]):
+        es = [[[(i + k) % 5 for k in range(1 + i % 3)], [i % 3]] for i in range(n)]
+        delays = [0] * (n // per + 6)
+        delays[slow] = 2500
+        tasks.append({'op': 'create_chunks', 'events': es, 'n_cues': 5, 'n_outs': 3, 'per': per, 'n_jobs': nj,
+                      'policy': 'error', 'delays': delays, 'delay_mode': 'early_in_batch_very_slow'})
     impls = pool.map(tasks)
     models = driver.ask([{'op': 'chunk_files', 'events': t['events'], 'per': t['per'], 'policy': t['policy'],
                           'delays': [d // 10 for d in t['delays']]} for t in tasks])
